@@ -22,7 +22,7 @@ MANIFEST = {
                 "bytes; empty result above U+10FFFF; fromString returns the payload bits of EVERY structurally complete sequence and toString(fromString(s)) = s "
                 "exactly for the shortest forms up to U+10FFFF; isValid = the structural well-formedness predicate for EVERY byte string, accepts every "
                 "RFC 3629 string (strictly more: the ABNF is proved equal to structural + shortest + non-surrogate); fromString/isValid never read outside "
-                "the range they are given and length() never leaves the 5-entry offset table; fromHex = upper-case hex text of every byte string, injective and a homomorphism for concatenation (hex_injective_and_concatenates), "
+                "the range they are given and length() never leaves the 5-entry offset table; fromHex = upper-case hex text of every byte string, injective and a homomorphism for concatenation (hex_injective_and_concatenates), its text only 0-9A-F (hex_text_is_upper_case_digits), the UTF-8 encoder injective and prefix-free over all code points and continuations (utf8_injective_and_prefix_free), the four integer printers injective on their whole range (int_texts_injective), "
                 "inverted by the specification decoder; fromBase64 = Spec.b64Decode for EVERY input, inverts the RFC 4648 encoding of every byte string, "
                 "reads its table below its size and writes inside the reserved buffer (false for the unpatched signed guard: defect D26); "
                 "numeric clause: the eight to* overloads (member + static) on EVERY text - numeral of any magnitude (saturation / ULLONG_MAX / negation in the "
